@@ -56,11 +56,64 @@ fn snapshot(base: &str) -> Vec<String> {
     v
 }
 
+/// service and node names: accepted exactly per the documented rule, accepted names round-trip
+fn user_names(rep: &mut Report, seed: u64) {
+    use iceoryx2::node::node_name::NodeName;
+    use iceoryx2::prelude::ServiceName;
+    let alphabet: Vec<char> = vec!['a', 'Z', '0', '/', '.', ' ', ':', '\\', '\0', '\n', '\u{7f}', '\u{e9}', '\u{20ac}', '_', '-'];
+    let mut cases: Vec<String> = vec![String::new(), "iox2://".into(), "iox2://x".into(), "iox2:/x".into(), "xiox2://".into(), "IOX2://x".into()];
+    for a in &alphabet {
+        cases.push(a.to_string());
+        for b in &alphabet {
+            cases.push(format!("{}{}", a, b));
+        }
+    }
+    let mut rng = vkit::Rng::derive(&[seed, 1919]);
+    for len in [127usize, 128, 129, 254, 255, 256, 300] {
+        for _ in 0..6 {
+            let non_ascii_at = if rng.chance(1, 3) { Some(rng.below(len as u64) as usize) } else { None };
+            let s: String = (0..len).map(|i| if Some(i) == non_ascii_at { '\u{e9}' } else { alphabet[rng.below(10) as usize] }).collect();
+            cases.push(s);
+        }
+    }
+    for c in &cases {
+        rep.execs += 1;
+        // the fixed string underneath is zero terminated: code points 1..=127 only
+        let ascii = c.is_ascii() && !c.contains('\0');
+        let exp_service = !c.is_empty() && !c.starts_with("iox2://") && c.len() <= 255 && ascii;
+        let got = ServiceName::new(c);
+        if got.is_ok() != exp_service {
+            rep.violation("service_name_validation", "C19:names:service_name_validation", format!("ServiceName::new({:?}) -> {:?}, the documented rule says {}", &c[..c.len().min(40)], got.as_ref().map(|_| "Ok").map_err(|e| format!("{:?}", e)), if exp_service { "accept" } else { "refuse" }), Json::obj());
+        }
+        if let Ok(n) = &got {
+            if n.as_str() != c.as_str() {
+                rep.violation("name_round_trip", "C19:names:name_round_trip", format!("ServiceName {:?} reads back as {:?}", c, n.as_str()), Json::obj());
+            }
+        }
+        let exp_node = c.len() <= 128 && ascii;
+        let gotn = NodeName::new(c);
+        if gotn.is_ok() != exp_node {
+            rep.violation("node_name_validation", "C19:names:node_name_validation", format!("NodeName::new({:?}) -> {:?}, the documented rule says {}", &c[..c.len().min(40)], gotn.as_ref().map(|_| "Ok").map_err(|e| format!("{:?}", e)), if exp_node { "accept" } else { "refuse" }), Json::obj());
+        }
+        if let Ok(n) = &gotn {
+            if n.as_str() != c.as_str() {
+                rep.violation("name_round_trip", "C19:names:name_round_trip", format!("NodeName {:?} reads back as {:?}", c, n.as_str()), Json::obj());
+            }
+        }
+        rep.nontrivial += 1;
+        rep.distinct(vkit::fnv_str(c));
+    }
+    rep.count("user_name_cases", cases.len() as u64);
+}
+
 pub fn run(args: &Args) -> Report {
     let exe = std::env::current_exe().unwrap();
     let rounds = args.usize("rounds", 2);
     let shard = args.usize("shard", 0);
     let mut rep = Report::new();
+    if shard == 0 {
+        user_names(&mut rep, args.u64("seed", 1));
+    }
     let base0 = std::env::var("VERIF_RUN_DIR").unwrap_or_else(|_| "/verif/.run/proc".to_string());
     for round in 0..rounds {
         let tag = format!("q{}x{}y{}", vkit::proc_token(), shard, round);
